@@ -648,3 +648,24 @@ Proof.
   exists {| lv_as_is := (A, B); lv_extended := (extend_points 3 A, B); lv_sorted_points := (A, B); lv_sorted_cells := (A, B) |}.
   vm_compute. repeat split; reflexivity.
 Qed.
+
+(* ------------------------------------------------------------------ the table of the mesh options (C04, C12, C17) *)
+(* A pair of data sets holding the same mesh, the second stored with another space dimension (dim3), in another order (perm),
+   with an unconnected point (ghost).  Given what the public transformations achieve on such a pair — extension matches the
+   dimensions, stripping removes the unconnected point, sorting removes the order (sorting the points alone may or may not
+   suffice: `lucky`) — the retry ladder answers exactly as the documentation of the three options says: the comparison fails
+   iff an option switches off the very mechanism the pair needs. *)
+Theorem ladder_option_table eq v (dim3 perm ghost lucky dd dr dor : bool) :
+  (space_dim (fst (lv_as_is v)) =? space_dim (snd (lv_as_is v))) = negb dim3 ->
+  eq (fst (lv_as_is v)) (snd (lv_as_is v)) = negb dim3 && negb perm && negb ghost ->
+  eq (fst (lv_extended v)) (snd (lv_extended v)) = (negb dim3 || negb dd) && negb perm && negb ghost ->
+  eq (fst (lv_sorted_points v)) (snd (lv_sorted_points v))
+    = (negb dim3 || negb dd) && (negb ghost || negb dor) && (negb perm || lucky) ->
+  eq (fst (lv_sorted_cells v)) (snd (lv_sorted_cells v)) = (negb dim3 || negb dd) && (negb ghost || negb dor) ->
+  cli_mesh_fixed eq dd dr false v = negb ((dim3 && dd) || (perm && dr) || (ghost && (dr || dor))).
+Proof.
+  destruct v as [[a0 b0] [a1 b1] [a2 b2] [a3 b3]]. cbn [fst snd lv_as_is lv_extended lv_sorted_points lv_sorted_cells].
+  intros Hd H0 H1 H2 H3. unfold cli_mesh_fixed, ladder. cbn [lv_as_is lv_extended lv_sorted_points lv_sorted_cells].
+  rewrite H0, Hd, H1, H2, H3.
+  destruct dim3, perm, ghost, lucky, dd, dr, dor; reflexivity.
+Qed.
